@@ -273,6 +273,24 @@ pub fn run(tier: Tier) -> i32 {
                     Tag::Set(Set { id: id64, class, inner: vec![Tag::OctetString(OctetString { inner: vec![9], ..Default::default() })] }),
                     Tlv::cons(c, id, vec![Tlv::octets(vec![9])]),
                 ),
+                // equal children next to each other and apart: a tree is a list, nothing may be merged or reordered
+                (
+                    Tag::Set(Set { id: id64, class, inner: vec![Tag::OctetString(OctetString { inner: vec![9], ..Default::default() }), Tag::OctetString(OctetString { inner: vec![9], ..Default::default() }), Tag::Null(Null::default()), Tag::OctetString(OctetString { inner: vec![9], ..Default::default() })] }),
+                    Tlv::cons(c, id, vec![Tlv::octets(vec![9]), Tlv::octets(vec![9]), Tlv::prim(0, 5, vec![]), Tlv::octets(vec![9])]),
+                ),
+                (
+                    Tag::Sequence(Sequence { id: id64, class, inner: vec![Tag::Integer(Integer { inner: 2, ..Default::default() }), Tag::Integer(Integer { inner: 2, ..Default::default() }), Tag::Integer(Integer { inner: 1, ..Default::default() })] }),
+                    Tlv::cons(c, id, vec![Tlv::int(2), Tlv::int(2), Tlv::int(1)]),
+                ),
+                (Tag::Set(Set { id: id64, class, inner: vec![] }), Tlv::cons(c, id, vec![])),
+                (
+                    Tag::StructureTag(lber::structures::SequenceOf::<OctetString> { id: id64, class, inner: vec![OctetString { inner: vec![7], ..Default::default() }, OctetString { inner: vec![7], ..Default::default() }, OctetString { inner: vec![], ..Default::default() }] }.into_structure()),
+                    Tlv::cons(c, id, vec![Tlv::octets(vec![7]), Tlv::octets(vec![7]), Tlv::octets(vec![])]),
+                ),
+                (
+                    Tag::StructureTag(lber::structures::SetOf::<Integer> { id: id64, class, inner: vec![Integer { inner: 3, ..Default::default() }, Integer { inner: 3, ..Default::default() }, Integer { inner: -1, ..Default::default() }] }.into_structure()),
+                    Tlv::cons(c, id, vec![Tlv::int(3), Tlv::int(3), Tlv::int(-1)]),
+                ),
                 (
                     Tag::ExplicitTag(ExplicitTag { id: id64, class, inner: Box::new(Tag::Integer(Integer { inner: 5, ..Default::default() })) }),
                     Tlv::cons(c, id, vec![Tlv::int(5)]),
@@ -299,6 +317,8 @@ pub fn run(tier: Tier) -> i32 {
     let defaults: Vec<(Tag, (u8, u32))> = vec![
         (Tag::Sequence(Sequence::default()), (0, 16)),
         (Tag::Set(Set::default()), (0, 17)),
+        (Tag::StructureTag(lber::structures::SequenceOf::<Null>::default().into_structure()), (0, 16)),
+        (Tag::StructureTag(lber::structures::SetOf::<Null>::default().into_structure()), (0, 17)),
         (Tag::OctetString(OctetString::default()), (0, 4)),
         (Tag::Boolean(Boolean::default()), (0, 1)),
         (Tag::Null(Null::default()), (0, 5)),
